@@ -43,7 +43,7 @@ Q17 = [("owning", 30000), ("lifecycle", 10000), ("mailbox", 4000), ("timeout", 8
 
 Q07 = [("restart", 30000), ("lifecycle", 12000), ("kinds", 4000), ("mix", 10000)]
 Q10 = [("timers", 30000), ("restart", 6000), ("handles", 6000), ("kinds", 6000), ("lifecycle", 4000), ("timeout", 10000), ("backpressure", 6000), ("mix", 10000)]
-Q11 = [("timeout", 40000), ("mailbox", 8000), ("lifecycle", 8000), ("backpressure", 4000), ("mix", 10000)]
+Q11 = [("timeout", 40000), ("mailbox", 8000), ("lifecycle", 8000), ("backpressure", 4000), ("stream", 8000), ("timeout0", 3000), ("mix", 10000)]
 Q13 = [("stream", 30000), ("lifecycle", 10000), ("owning", 6000), ("mix", 10000)]
 Q14 = [("liveness", 30000), ("lifecycle", 10000), ("handles", 6000), ("faults+faults", 200), ("mix", 10000)]
 Q15 = [("kinds", 30000), ("handles", 12000), ("restart", 4000), ("lifecycle", 4000), ("mix", 10000)]
